@@ -517,6 +517,44 @@ func checkC14(r *vt.Run) {
 		enum(full, n)
 	}
 	enum(red, redLen)
+	// bounds and lags with a sub-second part (a custom lag query returns fractions; durations in the
+	// configuration may be given in milliseconds): every list of up to 3 candidates
+	var falpha []c14Cand
+	for _, p := range []int64{0, 5} {
+		for _, l := range []float64{0, 0.4, 0.9, 1.2, 1.7, 2.2, 2.9, 4} {
+			for _, m := range masks[:2] {
+				falpha = append(falpha, c14Cand{p, l, m})
+			}
+		}
+	}
+	for n := 1; n <= 3; n++ {
+		total := 1
+		for i := 0; i < n; i++ {
+			total *= len(falpha)
+		}
+		for code := 0; code < total; code++ {
+			idx++
+			if !r.Mine(idx) {
+				continue
+			}
+			cands := make([]c14Cand, n)
+			x := code
+			for i := 0; i < n; i++ {
+				cands[i] = falpha[x%len(falpha)]
+				x /= len(falpha)
+			}
+			for _, b := range []float64{0.5, 1.5, 2.5} {
+				c := c14Case{Cands: cands, Bound: b, From: -1}
+				r.Crumb(c)
+				c14Run(r, fam, c)
+				if n <= 2 {
+					c.Optimize = true
+					c14Run(r, fam, c)
+				}
+			}
+		}
+	}
+	r.Bound("sub_second_bounds_s", []float64{0.5, 1.5, 2.5})
 	// the bound as the daemon derives it from its configuration (NewSwitchHelper): every list of up
 	// to 3 candidates over lags around both settings x sync/async x async_allowed_lag below, at and
 	// above priority_choice_max_lag
